@@ -78,17 +78,17 @@ Definition invin (u b : Z) : Z := inv3 u u b.
 
 (*@ powmod3_I | src/kernel/gmp++/gmp++_int_pow.C | Integer& powmod(Integer& Res, const Integer& n, const Integer& e, const Integer& m) | ca9e08717607 *)
 Definition powmod3_I (n e m : Z) : Z := mpz_powm n e m.
-(* as written in the tree: the exponent-zero shortcut returns 1 also when |m| = 1 *)
+(* repaired body (frag/C01.fix-4.diff): no exponent-zero shortcut (it returned 1 also when |m| = 1) *)
 (*@ powmod_I | src/kernel/gmp++/gmp++_int_pow.C | Integer powmod(const Integer& n, const Integer& e, const Integer& m) | 720decb26df8 *)
 Definition powmod_I (n e m : Z) : Z :=
-  if opEq_i32 e 0 then Integer_one else if opLt_i32 e 0 then Integer_zero else powmod3_I n e m.
-Definition powmod_I_fixed (n e m : Z) : Z :=
   if opLt_i32 e 0 then Integer_zero else powmod3_I n e m.
+Definition powmod_I_tree (n e m : Z) : Z :=
+  if opEq_i32 e 0 then Integer_one else if opLt_i32 e 0 then Integer_zero else powmod3_I n e m.
 (*@ powmod3_u64 | src/kernel/gmp++/gmp++_int_pow.C | Integer& powmod(Integer& Res, const Integer& n, const uint64_t p, const Integer& m) | 829d430e0439 *)
 Definition powmod3_u64 (n p m : Z) : Z := mpz_powm_ui n p m.
 (*@ powmod_u64 | src/kernel/gmp++/gmp++_int_pow.C | Integer powmod(const Integer& n, const uint64_t p, const Integer& m) | e6439bf9528d *)
-Definition powmod_u64 (n p m : Z) : Z := if p =? 0 then Integer_one else powmod3_u64 n p m.
-Definition powmod_u64_fixed (n p m : Z) : Z := powmod3_u64 n p m.
+Definition powmod_u64 (n p m : Z) : Z := powmod3_u64 n p m.
+Definition powmod_u64_tree (n p m : Z) : Z := if p =? 0 then Integer_one else powmod3_u64 n p m.
 (* Res is the destination's previous value (only observable when n is not invertible modulo m) *)
 (*@ powmod3_i64 | src/kernel/gmp++/gmp++_int_pow.C | Integer& powmod(Integer& Res, const Integer& n, const int64_t e, const Integer& m) | edb6103e41c9 *)
 Definition powmod3_i64 (Res n e m : Z) : Z :=
@@ -102,7 +102,6 @@ Definition powmod3_u32 (n e m : Z) : Z := powmod3_u64 n (u32_to_u64 e) m.
 Definition powmod3_i32 (Res n e m : Z) : Z := powmod3_i64 Res n (i32_to_i64 e) m.
 (*@ powmod_u32 | src/kernel/gmp++/gmp++_int.h | friend giv_all_inlined Integer powmod(const Integer& n, const uint32_t e, const Integer& m) | 6ac8eaea60f1 *)
 Definition powmod_u32 (n e m : Z) : Z := powmod_u64 n (u32_to_u64 e) m.
-Definition powmod_u32_fixed (n e m : Z) : Z := powmod_u64_fixed n (u32_to_u64 e) m.
 (*@ powmod_i32 | src/kernel/gmp++/gmp++_int.h | friend giv_all_inlined Integer powmod(const Integer& n, const int32_t e, const Integer& m) | 4aa7942959c7 *)
 Definition powmod_i32 (n e m : Z) : Z := powmod_i64 n (i32_to_i64 e) m.
 
@@ -151,7 +150,6 @@ Definition dom_pow_u32 (r n l : Z) : Z := assign r (pow_u64 n (u32_to_u64 l)).
 Definition dom_powmod_i64 (r n e m : Z) : Z := assign r (powmod_i64 n e m).
 (*@ dom_powmod_I | src/kernel/integer/givinteger.h | Rep& powmod(Rep& r, const Rep& n, const Rep& e, const Rep& m) const | f2bd8923c176 *)
 Definition dom_powmod_I (r n e m : Z) : Z := assign r (powmod_I n e m).
-Definition dom_powmod_I_fixed (r n e m : Z) : Z := assign r (powmod_I_fixed n e m).
 (*@ dom_gcdin | src/kernel/integer/givinteger.h | Rep& gcdin( Rep& g, const Rep& a) const | 317eed8f0cf6 *)
 Definition dom_gcdin (g a : Z) : Z := let tmp := ctor_copy g in gcd3 tmp a.
 (*@ dom_lcmin | src/kernel/integer/givinteger.h | Rep& lcmin( Rep& l, const Rep& a) const | 4ead2aa3ec75 *)
